@@ -277,3 +277,22 @@ class Alternate(FieldRanges):
 
 
 INVARIANTS["tz::timezone::rule::AlternateTime"] = Alternate({"dst_start_time": D.rng(-604799, 604799), "dst_end_time": D.rng(-604799, 604799)}, "new")
+
+
+def bind(invariants, facts):
+    """The table keyed by the ADT paths of this fact file.  A private type that was moved to another (private) module
+    keeps its invariant: a key that names no ADT is re-keyed to the one crate ADT with the same final name, if there is
+    exactly one."""
+    by_path = getattr(facts, "adt_by_path", None)
+    if not invariants or by_path is None:
+        return invariants or {}
+    out = {}
+    for key, inv in invariants.items():
+        if key in by_path:
+            out[key] = inv
+            continue
+        last = key.rsplit("::", 1)[-1]
+        crate = key.split("::", 1)[0] + "::"
+        cands = [p_ for p_ in by_path if p_.startswith(crate) and p_.rsplit("::", 1)[-1] == last]
+        out[cands[0] if len(cands) == 1 else key] = inv
+    return out
